@@ -304,3 +304,26 @@ CONTRACTS[CI + 'CliffordGate.forward#map_global'] = dict(
              'same_loc(result, obj)'],
     modifies=['obj.gs', 'obj.ps'], returns='=obj',
 )
+
+# ------------------------------------------------------------------ C03 / C05: transforming a state by a valid map keeps the commutation structure
+_M, _os, _N2 = 'clifford_map.gs', 'old(self.gs)', 'cols(clifford_map.gs) // 2'
+_R = lambda i: 'OrdGRow(%s[%s], %s, rows(%s))' % (_os, i, _M, _M)
+CONTRACTS[PA + 'PauliList.transform_by#state'] = dict(
+    params=[('self', STATE), ('clifford_map', CMAP), ('mask', 'none')], defaults={'mask': None},
+    requires=['cols(self.gs) % 2 == 0', 'inv_state(self.gs, self.ps, self.r, cols(self.gs) // 2)',
+              'rows(clifford_map.gs) == cols(self.gs)', 'cols(clifford_map.gs) == cols(self.gs)', 'len(clifford_map.ps) == rows(clifford_map.gs)',
+              'bits2(clifford_map.gs)', 'gram_map(clifford_map.gs, cols(self.gs) // 2)'],
+    # the images of the tableau rows under a valid map have the same commutation structure: rows still anticommute exactly with
+    # their partners (the signs of the images are NOT claimed Hermitian here: that part of C05 stays with the bounded histories)
+    ensures=['rows(self.gs) == 2 * (%s)' % _N2, 'cols(self.gs) == 2 * (%s)' % _N2, 'len(self.ps) == 2 * (%s)' % _N2, 'bits2(self.gs)',
+             'gram(self.gs, %s)' % _N2, 'same_loc(result, self)', 'self.r == old(self.r)'],
+    modifies=['self.gs', 'self.ps'], returns='=self',
+    hints={'return': [
+        ('assert_from', 'gram(self.gs, %s)' % _N2,
+         ['gram(%s, %s)' % (_os, _N2), 'rows(self.gs) == 2 * (%s)' % _N2, 'rows(%s) == 2 * (%s)' % (_M, _N2), '%s >= 0' % _N2,
+          'forall(j, 0, 2 * (%s), forall(c, 0, 2 * (%s), self.gs[j][c] == OrdG(%s[j], %s, rows(%s), c)))' % (_N2, _N2, _os, _M, _M),
+          ('forall_lemma', [('i', '0', 'rows(self.gs)'), ('l', '0', 'rows(self.gs)')], 'transform_preserves_acq', ['%s[i]' % _os, '%s[l]' % _os, _M, _N2]),
+          ('forall_lemma', [('i', '0', 'rows(self.gs)'), ('l', '0', 'rows(self.gs)')], 'acqsum_ext', ['self.gs[i]', _R('i'), 'self.gs[l]', _N2]),
+          ('forall_lemma', [('i', '0', 'rows(self.gs)'), ('l', '0', 'rows(self.gs)')], 'acqsum_ext', ['self.gs[l]', _R('l'), _R('i'), _N2])]),
+    ]},
+)
